@@ -162,6 +162,24 @@ func SENT1(e *Env) {
 		}
 	}
 	e.R.Extra["sent1_offsets"] = n
+	// position variables outside the builders (face readers, element search, …)
+	isBuilder := map[*ssa.Function]bool{}
+	for _, fn := range fns {
+		if len(literalSites(fn, func(t *types.Named) bool { return built[t] })) > 0 {
+			isBuilder[fn] = true // its offsets were decided above
+		}
+	}
+	m := 0
+	for _, fn := range e.DecodeScope() {
+		if isBuilder[fn] {
+			continue
+		}
+		if e.IsCtl(fn) && !strings.HasPrefix(fn.Name(), "verifControlSENT1") {
+			continue
+		}
+		m += sentIndexVars(e, fn)
+	}
+	e.R.Extra["sent1_positions"] = m
 	e.CtlDone(rule, "SENT1")
 }
 
@@ -574,3 +592,223 @@ func TOKSEP1(e *Env) {
 }
 
 func isPhi(v ssa.Value) bool { _, ok := v.(*ssa.Phi); return ok }
+
+// ---------------------------------------------------------------------------
+// SENT-1, second part: "position of a property / list in the header, or -1" variables
+// outside the builders (list index of vertex_indices / texcoord in the face readers, …).
+
+// sentIndexVars decides the sentinel discipline for every integer variable of fn that is
+// assigned only constants and the index of a header-list scan (`for i, p := range
+// element.Properties { if … { v = i } }`).
+func sentIndexVars(e *Env, fn *ssa.Function) int {
+	const rule = "SENT-1"
+	loops := e.Loops(fn)
+	// the index values of header-list scans
+	scanIdx := map[ssa.Value]bool{}
+	for _, ia := range headerListAddrs(fn) {
+		l := ssau.InnermostLoop(loops, ia.Block())
+		if l == nil {
+			continue
+		}
+		isCtr := false
+		LinEval(ia.Index, func(v ssa.Value) (Lin, bool) {
+			if phi, ok := v.(*ssa.Phi); ok {
+				if c := e.CounterOf(phi); c != nil && c.Loop == l {
+					isCtr = true
+					return linSym(phi), true
+				}
+			}
+			return Lin{}, false
+		})
+		if isCtr {
+			scanIdx[ia.Index] = true
+		}
+	}
+	if len(scanIdx) == 0 {
+		return 0
+	}
+	// integer, non-counter phis grouped into variables (connected through phi edges)
+	var phis []*ssa.Phi
+	ssau.AllInstrs(fn, func(in ssa.Instruction) {
+		if phi, ok := in.(*ssa.Phi); ok && isInteger(phi.Type()) && e.CounterOf(phi) == nil {
+			phis = append(phis, phi)
+		}
+	})
+	comp := map[*ssa.Phi]*ssa.Phi{}
+	var find func(p *ssa.Phi) *ssa.Phi
+	find = func(p *ssa.Phi) *ssa.Phi {
+		if comp[p] == nil || comp[p] == p {
+			comp[p] = p
+			return p
+		}
+		r := find(comp[p])
+		comp[p] = r
+		return r
+	}
+	isVarPhi := map[ssa.Value]bool{}
+	for _, p := range phis {
+		isVarPhi[p] = true
+	}
+	for _, p := range phis {
+		for _, ed := range p.Edges {
+			if q, ok := ed.(*ssa.Phi); ok && isVarPhi[q] {
+				a, b := find(p), find(q)
+				if a != b {
+					comp[a] = b
+				}
+			}
+		}
+	}
+	groups := map[*ssa.Phi][]*ssa.Phi{}
+	var roots []*ssa.Phi
+	for _, p := range phis {
+		r := find(p)
+		if _, ok := groups[r]; !ok {
+			roots = append(roots, r)
+		}
+		groups[r] = append(groups[r], p)
+	}
+	sort.Slice(roots, func(i, j int) bool {
+		return firstPos(groups[roots[i]]) < firstPos(groups[roots[j]])
+	})
+	n := 0
+	ord := 0
+	for _, r := range roots {
+		web := map[ssa.Value]bool{}
+		var consts []int64
+		captures, others := 0, 0
+		var names []string
+		for _, p := range groups[r] {
+			web[p] = true
+		}
+		for _, p := range groups[r] {
+			for i, ed := range p.Edges {
+				if web[ed] {
+					continue
+				}
+				if k, isK := ssau.ConstInt(ed); isK {
+					consts = append(consts, k)
+					continue
+				}
+				if scanIdx[ed] || scanIdx[StripConv(ed)] {
+					captures++
+					// which header names lead to the capture: string constants tested on the way in
+					pred := p.Block().Preds[i]
+					for _, b := range append([]*ssa.BasicBlock{pred}, pred.Preds...) {
+						if nn := len(b.Instrs); nn > 0 {
+							if iff, ok := b.Instrs[nn-1].(*ssa.If); ok {
+								if _, k, _, ok := normLit(iff.Cond, true).EqConst(); ok {
+									if s, isS := ConstStr(k); isS && s != "" {
+										names = append(names, s)
+									}
+								}
+							}
+						}
+					}
+					continue
+				}
+				others++
+			}
+		}
+		if captures == 0 || others > 0 {
+			continue
+		}
+		ord++
+		n++
+		sort.Strings(names)
+		names = dedup(names)
+		label := fmt.Sprintf("#%d", ord)
+		if len(names) > 0 {
+			label = ":" + strings.Join(names, "|")
+		}
+		construct := e.Name(fn) + "/index-of" + label
+		pos := groups[r][0].Pos()
+		badMsg := ""
+		var facts []string
+		for _, k := range consts {
+			if k != -1 {
+				badMsg = fmt.Sprintf("the found-index variable is initialised to %d, not to the sentinel -1: position %d cannot be told from 'absent'", k, k)
+			}
+		}
+		guards := 0
+		ssau.AllInstrs(fn, func(in ssa.Instruction) {
+			b, ok := in.(*ssa.BinOp)
+			if !ok || !isCmp(b.Op) {
+				return
+			}
+			var k int64
+			var isK bool
+			op := b.Op
+			switch {
+			case web[b.X]:
+				k, isK = ssau.ConstInt(b.Y)
+			case web[b.Y]:
+				k, isK = ssau.ConstInt(b.X)
+				switch op {
+				case token.LSS:
+					op = token.GTR
+				case token.LEQ:
+					op = token.GEQ
+				case token.GTR:
+					op = token.LSS
+				case token.GEQ:
+					op = token.LEQ
+				}
+			default:
+				return
+			}
+			if !isK {
+				return
+			}
+			guards++
+			isFound, isMissing := true, true
+			for v := int64(-1); v <= 4; v++ {
+				h := cmpHolds(op, v, k)
+				if h != (v >= 0) {
+					isFound = false
+				}
+				if h != (v < 0) {
+					isMissing = false
+				}
+			}
+			switch {
+			case isFound || isMissing:
+				facts = append(facts, fmt.Sprintf("%s: test `%s %d` separates exactly the found positions (≥ 0) from the sentinel", e.IPos(b), op, k))
+			case !cmpHolds(op, 0, k) && cmpHolds(op, 1, k):
+				badMsg = fmt.Sprintf("the test `%s %d` at %s treats position 0 as 'absent': a property / list that comes FIRST in its element is consumed but its data is dropped", op, k, e.IPos(b))
+			default:
+				badMsg = fmt.Sprintf("the test `%s %d` at %s does not separate the found positions (≥ 0) from the sentinel -1", op, k, e.IPos(b))
+			}
+		})
+		sort.Strings(facts)
+		switch {
+		case badMsg != "":
+			e.Violate(fn, rule, construct, pos, badMsg, facts...)
+		case guards == 0:
+			e.Hold(fn, rule, construct, pos, "position variable with sentinel -1; only compared with other positions")
+		default:
+			e.Hold(fn, rule, construct, pos, facts...)
+		}
+	}
+	return n
+}
+
+func firstPos(ps []*ssa.Phi) token.Pos {
+	best := token.Pos(0)
+	for _, p := range ps {
+		if best == 0 || (p.Pos().IsValid() && p.Pos() < best) {
+			best = p.Pos()
+		}
+	}
+	return best
+}
+
+func dedup(s []string) []string {
+	var out []string
+	for i, x := range s {
+		if i == 0 || x != s[i-1] {
+			out = append(out, x)
+		}
+	}
+	return out
+}
